@@ -185,7 +185,267 @@ pub fn gen_s1(rng: &mut Rng) -> Scenario {
     let f2 = (0..n_threads)
         .map(|_| if rng.chance(0.3) { (0..1 + rng.below(2)).map(|_| rng.below(4) as u32).collect() } else { vec![] })
         .collect();
-    Scenario { init, order, threads, f2 }
+    Scenario { init, order, threads, f2, pre: vec![] }
+}
+
+/// S2: core 3D operations on a polyhedral complex, incl. the template "one thread closes a
+/// face while another 3-sews it".
+pub fn gen_s2(rng: &mut Rng) -> Scenario {
+    use crate::props::hprops::Flavour;
+    let fl = if rng.chance(0.5) { Flavour::Sews } else { Flavour::Edits };
+    let init0 = crate::gen3::gen_init_3d(rng, fl, Tier::Quick);
+    let order = rand_order(rng, init0.kinds);
+    if rng.chance(0.35) {
+        if let Some((t, close, sew3)) = crate::gen3::closing_then_three_sew(rng, &init0) {
+            let mk = |rng: &mut Rng, op: crate::ops::Op| {
+                let runner = if rng.chance(0.5) { crate::ops::Runner::Force } else { crate::ops::Runner::WithErr };
+                crate::ops::Tx { runner, ops: vec![op], f1: vec![], f2: vec![], f1_attempt: 0 }
+            };
+            let mut threads = vec![vec![mk(rng, close)], vec![mk(rng, sew3)]];
+            if rng.chance(0.3) {
+                let g = OpGen::new(rng, &t, 2);
+                let mut u = 0;
+                threads.push(vec![rand_tx(rng, &g, 2, &mut u, 0.3)]);
+            }
+            return Scenario { init: t, order, threads, f2: vec![], pre: vec![] };
+        }
+    }
+    let init = init0;
+    let n_threads = 2 + [0, 0, 1][rng.below(3)];
+    let g = OpGen::new(rng, &init, 2);
+    let mut uniq = 0u64;
+    let mut budget = 6usize;
+    let mut threads = vec![];
+    for t in 0..n_threads {
+        let remaining = n_threads - t;
+        let max_here = (budget - (remaining - 1)).min(3);
+        let n_tx = 1 + rng.below(max_here);
+        budget -= n_tx;
+        let p_topo = [0.4, 0.7, 0.9][rng.below(3)];
+        threads.push((0..n_tx).map(|_| {
+            let mut tx = rand_tx(rng, &g, 3, &mut uniq, p_topo);
+            if init.kinds != 0 && rng.chance(0.12) {
+                tx.f1 = vec![1 + rng.below(5) as u32];
+            }
+            tx
+        }).collect());
+    }
+    let f2 = (0..n_threads).map(|_| if rng.chance(0.3) { vec![rng.below(4) as u32] } else { vec![] }).collect();
+    Scenario { init, order, threads, f2, pre: vec![] }
+}
+
+/// S3: remeshing / insertion / triangulation kernels on adjacent cells of a small mesh, in the
+/// runner forms of the benches.
+pub fn gen_s3(rng: &mut Rng) -> Scenario {
+    use crate::ops::{Op, Runner, Tx};
+    let kinds = rand_kinds_kernels(rng);
+    let tri = rng.chance(0.75);
+    let init = kernel_state(rng, kinds, tri, 2);
+    let order = rand_order(rng, init.kinds);
+    let n_threads = 2 + [0, 0, 1, 2][rng.below(4)];
+    let mut pool = free_pool(&init);
+    let disjoint = rng.chance(0.8);
+    let mut budget = 7usize;
+    let mut threads = vec![];
+    for t in 0..n_threads {
+        let remaining = n_threads - t;
+        let max_here = (budget - (remaining - 1)).min(3);
+        let n_tx = 1 + rng.below(max_here);
+        budget -= n_tx;
+        let mut txs = vec![];
+        for _ in 0..n_tx {
+            let which = if tri { [0, 0, 1, 1, 2, 3, 3, 4, 10, 10][rng.below(10)] } else { [4, 5, 6, 7, 8, 9, 10][rng.below(7)] };
+            let Some(op) = kernel_op_with_pool(rng, &init, Some(which), &mut pool, disjoint) else { continue };
+            let runner = match (&op, rng.below(6)) {
+                (Op::MoveToAverage { .. }, _) => Runner::Atomically,
+                (_, 0 | 1) => Runner::WithErr,
+                (_, 2 | 3) => Runner::ControlRetry,
+                (_, 4) => Runner::RetryLoop(2),
+                _ => Runner::ControlAbortAfter(1 + rng.below(2) as u8),
+            };
+            let mut tx = Tx { runner, ops: vec![op], f1: vec![], f2: vec![], f1_attempt: 0 };
+            if runner != Runner::Atomically && rng.chance(0.1) && (init.kinds & 0x3f) != 0 {
+                tx.f1 = vec![1 + rng.below(8) as u32];
+            }
+            txs.push(tx);
+        }
+        if txs.is_empty() {
+            txs.push(Tx { runner: Runner::WithErr, ops: vec![Op::Beta { i: 1, d: 1 }], f1: vec![], f2: vec![], f1_attempt: 0 });
+        }
+        threads.push(txs);
+    }
+    let f2 = (0..n_threads).map(|_| if rng.chance(0.3) { vec![rng.below(3) as u32] } else { vec![] }).collect();
+    Scenario { init, order, threads, f2, pre: vec![] }
+}
+
+/// S5: the parallel shift of examples/parallel_shift.rs / benches/src/shift.rs: every interior
+/// vertex is moved to the average of its neighbours (neighbour lists precomputed as there),
+/// work statically partitioned over the simulated threads, 1-2 rounds.
+pub fn gen_s5(rng: &mut Rng) -> Scenario {
+    use crate::ops::{Op, Runner, Tx};
+    use crate::state::Policy;
+    let (nx, ny) = (2 + rng.below(2), 2 + rng.below(2));
+    let mesh = grid_mesh(rng, nx, ny, true, 0.3);
+    let (init, _) = state_from_mesh(&mesh, 0, 0);
+    let pv = init.partition(0);
+    let mut nodes: Vec<(u32, Vec<u32>)> = vec![];
+    for v in 1..init.n() as u32 {
+        if pv[v as usize] != v {
+            continue;
+        }
+        let orb = init.orbit(Policy::Vertex, v);
+        if orb.iter().any(|&d| init.b(2, d) == 0) {
+            continue;
+        }
+        nodes.push((v, orb.iter().map(|&d| pv[init.b(2, d) as usize]).collect()));
+    }
+    let n_threads = 2 + rng.below(2);
+    let rounds = 1 + rng.below(2);
+    let mut threads: Vec<Vec<Tx>> = vec![vec![]; n_threads];
+    for _ in 0..rounds {
+        for (k, (vid, others)) in nodes.iter().enumerate() {
+            threads[k % n_threads].push(Tx { runner: Runner::Atomically, ops: vec![Op::MoveToAverage { vid: *vid, others: others.clone() }], f1: vec![], f2: vec![], f1_attempt: 0 });
+        }
+    }
+    threads.retain(|t| !t.is_empty());
+    while threads.len() < 2 {
+        threads.push(vec![Tx { runner: Runner::Atomically, ops: vec![Op::ReadV { id: 1 }], f1: vec![], f2: vec![], f1_attempt: 0 }]);
+    }
+    let nt = threads.len();
+    Scenario { init, order: [vec![], vec![], vec![]], threads, f2: (0..nt).map(|_| if rng.chance(0.3) { vec![rng.below(3) as u32] } else { vec![] }).collect(), pre: vec![] }
+}
+
+pub fn gen_family(rng: &mut Rng) -> (&'static str, Scenario) {
+    match rng.below(20) {
+        0..=7 => ("S1", gen_s1(rng)),
+        8..=12 => ("S2", gen_s2(rng)),
+        13..=17 => ("S3", gen_s3(rng)),
+        _ => ("S5", gen_s5(rng)),
+    }
+}
+
+// ------------------------------------------------------------------------------- minimiser
+
+/// Search schedules of `scn` for a violation of class `class`. Tries the old trace first.
+fn find_violation(scn: &Arc<Scenario>, class: &str, hint: &SchedSpec, rng: &mut Rng, tries: usize) -> Option<(SchedSpec, String)> {
+    let mut specs = vec![hint.clone()];
+    let mut h2 = hint.clone();
+    h2.replay = None;
+    specs.push(h2);
+    for _ in 0..tries {
+        specs.push(draw_sched(rng, scn.threads.len().max(1), 200));
+    }
+    for spec in specs {
+        let info = eval_run(scn, &spec);
+        if let Verdict::Violation { class: c, message } = info.verdict {
+            if c == class {
+                let mut s2 = spec.clone();
+                s2.replay = Some(info.sched.trace.clone());
+                return Some((s2, message));
+            }
+        }
+    }
+    None
+}
+
+/// Drop threads, transactions, operations and faults while a violation of the same class can
+/// still be found within a bounded schedule search.
+pub fn minimise(v: Violation) -> Violation {
+    let Ok(p) = serde_json::from_value::<Payload>(v.payload.clone()) else { return v };
+    let mut rng = Rng::new(v.seed ^ 0x6d696e);
+    let class = v.class.clone();
+    let mut scn = p.scenario.clone();
+    let mut spec = p.sched.clone();
+    let mut msg = v.message.clone();
+    let tries = 120;
+    let mut progress = true;
+    let mut rounds = 0;
+    while progress && rounds < 6 {
+        progress = false;
+        rounds += 1;
+        // drop whole transactions
+        let mut th = 0;
+        while th < scn.threads.len() {
+            let mut i = 0;
+            while i < scn.threads[th].len() {
+                if scn.n_tx() <= 1 {
+                    break;
+                }
+                let mut c = scn.clone();
+                c.threads[th].remove(i);
+                let empty = c.threads[th].is_empty();
+                if empty {
+                    c.threads.remove(th);
+                    if th < c.f2.len() {
+                        c.f2.remove(th);
+                    }
+                }
+                if let Some((s2, m)) = find_violation(&Arc::new(c.clone()), &class, &spec, &mut rng, tries) {
+                    scn = c;
+                    spec = s2;
+                    msg = m;
+                    progress = true;
+                    if empty {
+                        break;
+                    }
+                } else {
+                    i += 1;
+                }
+            }
+            th += 1;
+        }
+        // drop operations inside transactions
+        for th in 0..scn.threads.len() {
+            for i in 0..scn.threads[th].len() {
+                let mut k = 0;
+                while scn.threads[th][i].ops.len() > 1 && k < scn.threads[th][i].ops.len() {
+                    let mut c = scn.clone();
+                    c.threads[th][i].ops.remove(k);
+                    if let Some((s2, m)) = find_violation(&Arc::new(c.clone()), &class, &spec, &mut rng, tries) {
+                        scn = c;
+                        spec = s2;
+                        msg = m;
+                        progress = true;
+                    } else {
+                        k += 1;
+                    }
+                }
+            }
+        }
+        // drop faults
+        let mut c = scn.clone();
+        let had = c.f2.iter().any(|f| !f.is_empty()) || c.threads.iter().flatten().any(|t| !t.f1.is_empty() || !t.f2.is_empty());
+        if had {
+            for f in c.f2.iter_mut() {
+                f.clear();
+            }
+            for t in c.threads.iter_mut().flatten() {
+                t.f1.clear();
+                t.f2.clear();
+            }
+            if let Some((s2, m)) = find_violation(&Arc::new(c.clone()), &class, &spec, &mut rng, tries) {
+                scn = c;
+                spec = s2;
+                msg = m;
+                progress = true;
+            }
+        }
+        if spec.early_wake_pm > 0 {
+            let mut s3 = spec.clone();
+            s3.early_wake_pm = 0;
+            s3.replay = None;
+            if let Some((s2, m)) = find_violation(&Arc::new(scn.clone()), &class, &s3, &mut rng, 40) {
+                if s2.early_wake_pm == 0 {
+                    spec = s2;
+                    msg = m;
+                }
+            }
+        }
+    }
+    let mut out = v.clone();
+    out.message = msg;
+    out.payload = serde_json::to_value(Payload { family: p.family, scenario: scn, sched: spec }).unwrap();
+    out
 }
 
 // ------------------------------------------------------------------------------------ check
@@ -221,14 +481,34 @@ pub fn check(tier: Tier) -> i32 {
         counters,
         exhaustive: false,
     };
-    conclude(&rep, viols, &BTreeMap::new())
+    let mut hits: BTreeMap<String, (KnownFinding, u64)> = BTreeMap::new();
+    let mut real = run_stored_replays("C07", &|v| replay_verdict(v).is_some(), &mut hits);
+    let mut seen = std::collections::BTreeSet::new();
+    for v in viols {
+        if seen.insert(v.class.clone()) {
+            real.push(minimise(v));
+        }
+    }
+    conclude(&rep, real, &hits)
+}
+
+fn replay_verdict(v: &Violation) -> Option<(String, String)> {
+    let p: Payload = serde_json::from_value(v.payload.clone()).ok()?;
+    let scn = Arc::new(p.scenario);
+    let info = eval_run(&scn, &p.sched);
+    match info.verdict {
+        Verdict::Violation { class, message } if class == v.class => Some((class.to_string(), message)),
+        _ => None,
+    }
 }
 
 fn run_scenario(i: u64, seed: u64, c: &mut Counters) -> Vec<Violation> {
     let mut rng = Rng::new(seed);
     let mut srng = rng.fork(1);
-    let scn = Arc::new(gen_s1(&mut srng));
+    let (family, scn) = gen_family(&mut srng);
+    let scn = Arc::new(scn);
     c.inc("scenarios");
+    c.inc(&format!("scenarios_{family}"));
     c.sample(|| json!({"seed": seed, "scenario": &*scn}));
     // admission: sampled serial orders must not panic
     let (n_orders, p, b, msg) = serial_survey(&scn, 24);
@@ -256,6 +536,7 @@ fn run_scenario(i: u64, seed: u64, c: &mut Counters) -> Vec<Violation> {
         }
         c.inc("executions");
         c.inc(&format!("sched_{}", sched_name(&spec.kind)));
+        c.inc(&format!("executions_{family}"));
         c.add("decisions", info.sched.decisions);
         c.add("multi_decisions", info.sched.multi_decisions);
         c.add("context_switches", info.sched.context_switches);
@@ -301,7 +582,7 @@ fn run_scenario(i: u64, seed: u64, c: &mut Counters) -> Vec<Violation> {
                     message,
                     seed,
                     run: i,
-                    payload: serde_json::to_value(Payload { family: "S1".into(), scenario: (*scn).clone(), sched: spec2 }).unwrap(),
+                    payload: serde_json::to_value(Payload { family: family.into(), scenario: (*scn).clone(), sched: spec2 }).unwrap(),
                     known: None,
                 });
                 break;
